@@ -353,10 +353,14 @@ check "(h) no descriptor leaked into the command (fds=$BASEFDS)" \
     grep -q " fds=$BASEFDS " "$W/eh"
 check "(h) stdin is the message file" \
     grep -q " stdin_target=$W/src/new/1.host\$" "$W/eh"
-check "(h) trace: fcntl, lseek, fork = C1, waitpid status=0" sh -c "
+check "(h) trace: fcntl, lseek, fork ... = C1, waitpid status=0" sh -c "
     grep -E -q '^[0-9]+ lseek fd=[0-9]+ off=0 whence=SEEK_SET = 0\$' '$W/log' &&
-    grep -E -q '^[0-9]+ fork = C1\$' '$W/log' &&
+    grep -E -q '^[0-9]+ fork fn=execvp file=[^ ]+ stdin=[0-9]+ argc=3 a0=[^ ]+ a1=a\\\\x20b a2= = C1\$' '$W/log' &&
     grep -E -q '^[0-9]+ waitpid pid=C1 options=0 status=0 = C1\$' '$W/log'"
+# the fork line carries what the CHILD handed to execvp and the descriptor it duplicated onto 0
+DUPFD=$(sed -n 's/^[0-9]* fcntl .*cmd=F_DUPFD_CLOEXEC.* = \([0-9]*\)$/\1/p' "$W/log" | head -1)
+check "(h) fork line: file = argv[0] = the helper, stdin = the duplicated descriptor ($DUPFD)" sh -c "
+    grep -E -q '^[0-9]+ fork fn=execvp file=$HELPER stdin=$DUPFD argc=3 a0=$HELPER ' '$W/log'"
 check "(h) the child is not traced (indices sequential, no child lines)" \
     sequential "$W/log"
 fresh h2
@@ -382,9 +386,12 @@ K_FORK=$(index_of "$W/log" ' fork ')
 fresh h5
 conf "maildir \"$W/src\" { match all exec \"$HELPER\" }"
 mds VSHIM_LOG="$W/log" EXECHELPER_OUT="$W/eh" VSHIM_FAIL="$K_FORK:EAGAIN"
-check "(h) fork fault: no child ran, mdsort exits 1" sh -c "
+check "(h) fork fault: no child ran (the ghost child reports its exec call and exits), mdsort exits 1" sh -c "
     test $RC -eq 1 && test ! -e '$W/eh' &&
-    grep -q '^$K_FORK fork = -1 errno=EAGAIN FAULT\$' '$W/log'"
+    grep -E -q '^$K_FORK fork fn=execvp file=$HELPER stdin=[0-9]+ argc=1 a0=$HELPER = -1 errno=EAGAIN FAULT\$' '$W/log'"
+DEVNULL=$(sed -n 's/^[0-9]* open path=\/dev\/null .* = \([0-9]*\)$/\1/p' "$W/log" | head -1)
+check "(h) fork fault: stdin of the would-be child is the /dev/null just opened ($DEVNULL)" \
+    grep -q "^$K_FORK fork .* stdin=$DEVNULL " "$W/log"
 
 # ---------------------------------------------------------------- (i)
 
